@@ -158,6 +158,38 @@ def translate(repo):
         raise Untranslatable("_clear_unused_initializers not found")
     keep = any(isinstance(x, ast.Attribute) and x.attr == "is_graph_input" for x in ast.walk(cui))
     txt += f"Definition clear_keeps_graph_inputs : bool := {'true' if keep else 'false'}.\n"
+    # naming of the Unsqueeze outputs created by concat_from_sequence (new_axis = 1)
+    cfs = next((n for n in tree.body if isinstance(n, ast.FunctionDef) and n.name == "concat_from_sequence"), None)
+    if cfs is None:
+        raise Untranslatable("concat_from_sequence not found")
+    templates = []
+    for x in ast.walk(cfs):
+        if isinstance(x, ast.Call) and isinstance(x.func, ast.Attribute) and x.func.attr == "Unsqueeze":
+            for kw in x.keywords:
+                if kw.arg == "_outputs":
+                    templates.append(ast.unparse(kw.value))
+    schemes = {"[f'{node_input.name}_unsqueeze']": 0, "[f'{output_name}_{i}_unsqueeze']": 1}
+    if len(templates) != 1 or templates[0] not in schemes:
+        raise Untranslatable(f"concat_from_sequence: unknown naming of the Unsqueeze outputs {templates}")
+    scheme = schemes[templates[0]]
+    if scheme == 1:
+        src = ast.unparse(cfs)
+        if "output_name = node.outputs[0].name" not in src or "for i, node_input in enumerate(inputs)" not in src.replace("(i, node_input)", "i, node_input"):
+            raise Untranslatable("concat_from_sequence: output_name / i are not what the model assumes")
+    txt += f"Definition unsqueeze_name_scheme : nat := {scheme}.\n"
+    # split_to_sequence: is a missing split value (with a known non 1-D shape) handled before `.ndim` is read?
+    sts = next((n for n in tree.body if isinstance(n, ast.FunctionDef) and n.name == "split_to_sequence"), None)
+    if sts is None:
+        raise Untranslatable("split_to_sequence not found")
+    none_guard = False
+    for x in ast.walk(sts):
+        if isinstance(x, ast.If) and isinstance(x.test, ast.Compare) and isinstance(x.test.left, ast.Name) \
+                and x.test.left.id == "split_value" and len(x.test.ops) == 1 and isinstance(x.test.ops[0], ast.Is) \
+                and isinstance(x.test.comparators[0], ast.Constant) and x.test.comparators[0].value is None:
+            if not (len(x.body) == 1 and isinstance(x.body[0], ast.Return)):
+                raise Untranslatable("split_to_sequence: unexpected handling of split_value is None")
+            none_guard = True
+    txt += f"Definition split_value_none_guard : bool := {'true' if none_guard else 'false'}.\n"
     return txt, {"registry": [(d, o, lo, hi) for d, o, lo, hi, _ in registry], "order": order, "returns": n_ret,
                  "guard": guard, "clear_keeps": keep}
 
